@@ -775,6 +775,19 @@ def render_file(path, module, moddir, ctx):
                 names_.append(t.text)
             prev_sig = t
         info.keycodes = names_
+    # an impl block that is left out as a whole swallows every edit placed inside it (ghost members, block markers,
+    # contract clauses of its functions) - the decision to leave it out may come after those were queued
+    whole = [e for e in edits if e.prio == 5 and e.text.startswith('/* impl ')]
+    if whole:
+        def swallowed(e):
+            for w in whole:
+                if e.start == e.end == w.end:
+                    if e.text == '/*@ENDBLK@*/':
+                        return True
+                elif w.start <= e.start and e.end <= w.end:
+                    return True
+            return False
+        edits = [e for e in edits if e in whole or not swallowed(e)]
     return apply_edits(src, edits)
 
 
